@@ -202,6 +202,7 @@ class PoolCtx:
         self.unnamed = []
         self.limit = size
         self.hi = 0
+        self.call_failures = 0
         self.set_while_busy = False
 
 
@@ -226,6 +227,9 @@ class Driver:
 _TASKNAME_RE = re.compile(r"_Task-(-?\d+)$")
 _GEN_NAME_RE = re.compile(r"^(apply|map|starmap|doublestarmap)-(.+)-group-(\d+)$")
 _START_NAME_RE = re.compile(r"^start-group-(\d+)$")
+
+
+_FALSY = (0, None, "", (), False)
 
 
 class Payload:
@@ -288,6 +292,13 @@ class Sim:
     def ev(self, *a):
         self.events.append(a)
 
+    def violate_progress(self, pc, prop, oracle, msg):
+        """A request that does not make the progress C04/C05 promise; if a failure was injected in this
+        pool, the same observation also contradicts C12 (a failure harms only the failing task)."""
+        self.violate(prop, oracle, msg)
+        if self.inj_by_pool[pc.idx] or pc.call_failures:
+            self.violate("C12", "sibling_progress:" + oracle, msg)
+
     def violate(self, prop, oracle, msg, **kw):
         if self.props is not None and prop not in self.props:
             self.stats["otherprop:" + prop] += 1
@@ -307,6 +318,8 @@ class Sim:
     # ------------------------------------------------------------------ setup
     def _setup(self):
         from asyncio_taskpool import pool as pmod
+        from .hermetic import reset_library_state
+        reset_library_state()
         self.pmod = pmod
         from asyncio_taskpool import exceptions as X
         self.X = X
@@ -316,31 +329,7 @@ class Sim:
             pass
         with running(self.loop):
             for i, pcfg in enumerate(self.cfg["pools"]):
-                size = pcfg.get("size")
-                kw = {}
-                if size is not None:
-                    kw["pool_size"] = size
-                if pcfg.get("name") is not None:
-                    kw["name"] = pcfg["name"]
-                if pcfg["cls"] == "S":
-                    pc = PoolCtx(i, None, "S", size, pcfg)
-                    func = self._make_func(pc, pcfg.get("fk", "sync"),
-                                           FUNC_NAMES[pcfg.get("fn", 0) % len(FUNC_NAMES)])
-                    pc.simple_func = func
-                    pc.payload_args, pc.payload_kwargs = self._make_payload(("S", i), pcfg.get("ash", 0))
-                    pc.ecb_kind = pcfg.get("ecb")
-                    pc.ccb_kind = pcfg.get("ccb")
-                    pool = pmod.SimpleTaskPool(
-                        func, args=pc.payload_args, kwargs=pc.payload_kwargs,
-                        end_callback=self._make_cb(pc, "ecb", pc.ecb_kind),
-                        cancel_callback=self._make_cb(pc, "ccb", pc.ccb_kind), **kw)
-                    pc.pool = pool
-                else:
-                    pool = pmod.TaskPool(**kw)
-                    pc = PoolCtx(i, pool, "T", size, pcfg)
-                pc.pool_str = str(pool)
-                pc.live_names = {}
-                self.pools.append(pc)
+                self._make_pool(i, pcfg)
         names = [pc.pool_str for pc in self.pools]
         if len(set(names)) != len(names):
             self.violate("C11", "pool_names_distinct", f"pool names collide: {names}")
@@ -349,6 +338,52 @@ class Sim:
             exp_cls = "SimpleTaskPool" if pc.cls == "S" else "TaskPool"
             if pcfg.get("name") is not None and pc.pool_str != f"{exp_cls}-{pcfg['name']}":
                 self.violate("C11", "pool_name", f"{pc.pool_str!r} for name {pcfg['name']!r}")
+
+    def _make_pool(self, i, pcfg):
+        pmod = self.pmod
+        size = pcfg.get("size")
+        kw = {}
+        if size is not None:
+            kw["pool_size"] = size
+        if pcfg.get("name") is not None:
+            kw["name"] = pcfg["name"]
+        if pcfg["cls"] == "S":
+            pc = PoolCtx(i, None, "S", size, pcfg)
+            func = self._make_func(pc, pcfg.get("fk", "sync"),
+                                   FUNC_NAMES[pcfg.get("fn", 0) % len(FUNC_NAMES)])
+            pc.simple_func = func
+            pc.payload_args, pc.payload_kwargs = self._make_payload(("S", i), pcfg.get("ash", 0))
+            pc.ecb_kind = pcfg.get("ecb")
+            pc.ccb_kind = pcfg.get("ccb")
+            pool = pmod.SimpleTaskPool(
+                func, args=pc.payload_args, kwargs=pc.payload_kwargs,
+                end_callback=self._make_cb(pc, "ecb", pc.ecb_kind),
+                cancel_callback=self._make_cb(pc, "ccb", pc.ccb_kind), **kw)
+            pc.pool = pool
+        else:
+            pool = pmod.TaskPool(**kw)
+            pc = PoolCtx(i, pool, "T", size, pcfg)
+        pc.pool_str = str(pool)
+        pc.live_names = {}
+        self.pools.append(pc)
+
+    def _op_new_pool(self, step, ctx):
+        """Create another pool in the middle of the run (C11: unnamed pools get distinct names)."""
+        if len(self.pools) >= 5:
+            return False
+        pcfg = dict(step["cfg"])
+        i = len(self.pools)
+        self._make_pool(i, pcfg)
+        pc = self.pools[i]
+        live = [p.pool_str for p in self.pools[:i] if not p.closed]
+        if pc.pool_str in live:
+            self.violate("C11", "pool_names_distinct", f"new pool is named {pc.pool_str!r} like a pool that is still open")
+        exp_cls = "SimpleTaskPool" if pc.cls == "S" else "TaskPool"
+        if pcfg.get("name") is not None and pc.pool_str != f"{exp_cls}-{pcfg['name']}":
+            self.violate("C11", "pool_name", f"{pc.pool_str!r} for name {pcfg['name']!r}")
+        if any(p.closed for p in self.pools[:i]):
+            self.stats["probe:pool_created_after_a_close"] += 1
+        return True
 
     def _make_payload(self, tag, shape):
         # shape 0: no args; 1: positional; 2: keyword; 3: both
@@ -445,6 +480,7 @@ class Sim:
             if idx in fails and not inv.probe:
                 inv.state = "failed"
                 req.skipped += 1
+                req.pc.call_failures += 1
                 self.stats["fault:factory_raises"] += 1
                 e = FactoryError(f"r{req.label}#{idx}")
                 raise e
@@ -777,9 +813,10 @@ class Sim:
         if i > turned:
             self.violate("C05", "pull_ahead", f"r{req.label}: pulling element {i} while only {turned} turned into tasks/skipped")
         self._op_point("it", req)
-        if req.spec["elems"][i]:
+        if req.spec["elems"][i] == 1:
             # a bad element: its call raises before reaching func; it will be skipped
             req.skipped += 1
+            req.pc.call_failures += 1
             self.stats["fault:bad_element"] += 1
 
     def _arg_iter(self, req):
@@ -883,13 +920,13 @@ class Sim:
                     if r.elems is None:
                         if not full and not r.spawner_done():
                             self.violate("C02", "work_conservation", f"idle: r{r.label} has invocations left, pool {pc.pool_str} not full")
-                            self.violate("C04", "work_conservation", f"idle: r{r.label} has invocations left, pool {pc.pool_str} not full")
+                            self.violate_progress(pc, "C04", "work_conservation", f"idle: r{r.label} has invocations left, pool {pc.pool_str} not full")
                         elif r.spawner_done():
-                            self.violate("C04", "spawner_gone", f"idle: spawner of r{r.label} finished with invocations left")
+                            self.violate_progress(pc, "C04", "spawner_gone", f"idle: spawner of r{r.label} finished with invocations left")
                     elif cbs == 0 and not full:
                         run = sum(1 for t in r.tasks if t.state in ("U", "L"))
                         if run != r.nc:
-                            self.violate("C05", "work_conservation", f"idle: r{r.label} has elements left and pool has room, {run} running != num_concurrent {r.nc}")
+                            self.violate_progress(pc, "C05", "work_conservation", f"idle: r{r.label} has elements left and pool has room, {run} running != num_concurrent {r.nc}")
             # groups
             self._check_groups(pc)
             # closed pools
@@ -1016,11 +1053,11 @@ class Sim:
                 elems = []
                 for i, b in enumerate(step["elems"]):
                     if kind == "map":
-                        elems.append(Payload(("el", label, i)))
+                        elems.append(_FALSY[i % len(_FALSY)] if b == 2 else Payload(("el", label, i)))
                     elif kind == "starmap":
-                        elems.append(7 if b else (Payload(("el", label, i, 0)), Payload(("el", label, i, 1))))
+                        elems.append(7 if b == 1 else (() if b == 2 else (Payload(("el", label, i, 0)), Payload(("el", label, i, 1)))))
                     else:
-                        elems.append(7 if b else {"kw_a": Payload(("el", label, i, "a"))})
+                        elems.append(7 if b == 1 else ({} if b == 2 else {"kw_a": Payload(("el", label, i, "a"))}))
                 req.elems = elems
         func = req.func
         if bad == "notcoro":
@@ -1088,6 +1125,8 @@ class Sim:
                 return True
         elif exc is not None:
             self.violate("C09", "valid_rejected", f"valid {kind} raised {type(exc).__name__}: {exc}")
+            if isinstance(exc, X.InvalidGroupName) and (gn is None or kind == "start"):
+                self.violate("C10", "generated_name_collision", f"{kind} without a group name raised {type(exc).__name__}: {exc}")
             if pc.closed is False and isinstance(exc, X.PoolIsClosed):
                 self.violate("C08", "closed_early", f"{kind} raised PoolIsClosed on an open pool")
             return True
@@ -1769,9 +1808,9 @@ class Sim:
                     continue
                 if r.elems is None:
                     if len(r.calls) != r.num:
-                        self.violate("C04", "call_count", f"r{r.label} {r.kind}(num={r.num}): func called {len(r.calls)}x")
+                        self.violate_progress(pc, "C04", "call_count", f"r{r.label} {r.kind}(num={r.num}): func called {len(r.calls)}x")
                     if len(r.tasks) != r.num - r.skipped:
-                        self.violate("C04", "task_count", f"r{r.label} {r.kind}(num={r.num}): {len(r.tasks)} tasks, {r.skipped} skipped")
+                        self.violate_progress(pc, "C04", "task_count", f"r{r.label} {r.kind}(num={r.num}): {len(r.tasks)} tasks, {r.skipped} skipped")
                     seen = set()
                     for t in r.tasks:
                         if t.inv is None or id(t.inv) in seen:
@@ -1779,17 +1818,17 @@ class Sim:
                         else:
                             seen.add(id(t.inv))
                 else:
-                    good = [i for i, b in enumerate(r.spec["elems"]) if not b]
+                    good = [i for i, b in enumerate(r.spec["elems"]) if b != 1]
                     if r.pulls != len(r.elems) or not r.exhausted:
-                        self.violate("C05", "not_exhausted", f"r{r.label} {r.kind}: {r.pulls}/{len(r.elems)} elements pulled")
+                        self.violate_progress(pc, "C05", "not_exhausted", f"r{r.label} {r.kind}: {r.pulls}/{len(r.elems)} elements pulled")
                     if r.spec.get("fk", "sync") == "sync":
                         if r.called_els != good:
-                            self.violate("C05", "elements_called", f"r{r.label}: func called for elements {r.called_els}, expected {good}")
+                            self.violate_progress(pc, "C05", "elements_called", f"r{r.label}: func called for elements {r.called_els}, expected {good}")
                         nfail = sum(1 for c in r.calls if c.state == "failed")
                         if len(r.tasks) != len(good) - nfail:
-                            self.violate("C05", "task_count", f"r{r.label}: {len(r.tasks)} tasks for {len(good)} good elements ({nfail} failed calls)")
+                            self.violate_progress(pc, "C05", "task_count", f"r{r.label}: {len(r.tasks)} tasks for {len(good)} good elements ({nfail} failed calls)")
                     elif len(r.tasks) != len(good):
-                        self.violate("C05", "task_count", f"r{r.label}: {len(r.tasks)} tasks for {len(good)} good elements")
+                        self.violate_progress(pc, "C05", "task_count", f"r{r.label}: {len(r.tasks)} tasks for {len(good)} good elements")
             if pc.closed:
                 for d in pc.waiters:
                     if d.state != "returned":
